@@ -82,9 +82,11 @@ def conservation(case):
     Rfull = float(np.sum(dz * np.maximum(inv[:-1], inv[1:])))
     for k, L in enumerate(lv):
         # (i)
-        e = abs(float(flx[k].mean()) - qm) / sc
+        # single precision: storage rounding is relative to the field maximum (the scale C12 states it on)
+        scf = sc if prec == "double" else max(sc, float(np.max(np.abs(flx[k]))))
+        e = abs(float(flx[k].mean()) - qm) / scf
         resid[f"mean_flux_{prec}"] = max(resid.get(f"mean_flux_{prec}", 0), e)
-        if e > EX[prec]:
+        if e > (EX[prec] if prec == "double" else 1e-5):
             viol.append({"what": "mean_flux_not_conserved", "level": L, "rel": e, "precision": prec, "setup": desc, "analytic": analytic})
         # (ii)
         R = (bg - float(conc[k].mean())) / qm
@@ -173,12 +175,14 @@ def halo_equiv(case):
             raise
         counters["solver_calls"] += 2
         c1, f1, c2, f2 = [solve.as3d(a, nl) for a in (c1, f1, c2, f2)]
+        ssc, ssf = solve.surface_scales(big, qpad, meas_pt=mp_big, precision=prec, footprint=fp, analytic=analytic)
         c2c, f2c = c2[:, py : py + ny, px : px + nx], f2[:, py : py + ny, px : px + nx]
-        for nm, a, b_ in (("conc", c1, c2c), ("flx", f1, f2c)):
+        for nm, a, b_, full, surf in (("conc", c1, c2c, c2, ssc), ("flx", f1, f2c, f2, ssf)):
             counters["compared"] += 1
             if a.shape == b_.shape and np.array_equal(a, b_):
                 counters["bitwise_equal"] += 1
-            e = solve.relerr(a, b_, scale=max(float(np.max(np.abs(b_))), abs(bg) if nm == "conc" else 0.0, 1e-300))
+            # scale: the field on the whole padded domain (the cropped part may hold only rounding noise, e.g. a re-centred impulse)
+            e = solve.relerr(a, b_, scale=max(float(np.max(np.abs(full))), surf, abs(bg) if nm == "conc" else 0.0, 1e-300))
             key = f"halo_vs_padcrop_{mode}_{prec}"
             resid[key] = max(resid.get(key, 0), e)
             # not the same arithmetic: the enlarged domain's dx differs from the original by an ulp, amplified by e^G
